@@ -216,8 +216,34 @@ def geno_snapshot(ind):
 def deep_snapshot(ind):
     f = ind.fitness
     return {"geno": geno_snapshot(ind), "valid": bool(f.valid), "values": tuple(f.values) if f.valid else (),
-            "wvalues": tuple(f.wvalues), "fitness_id": id(f),
+            "wvalues": tuple(f.wvalues), "fitness_id": id(f), "fitness_class": type(f).__name__,
+            "fitness_attrs": fitness_attrs(f),
             "attrs": sorted((k, repr(v)) for k, v in vars(ind).items() if k != "fitness")}
+
+
+def fitness_attrs(f):
+    """every attribute of the fitness object besides wvalues (ConstrainedFitness.constraint_violation, ...)"""
+    return sorted((k, repr(v)) for k, v in getattr(f, "__dict__", {}).items() if k != "wvalues")
+
+
+def constrain(ind, rng):
+    """Replace ind.fitness by a base.ConstrainedFitness in one of its states: evaluated (with a list / tuple / no
+    constraint_violation), violating (no values, list-valued constraint_violation with a True), or unevaluated."""
+    creator = get_classes()
+    old = ind.fitness
+    cls = creator.C02CFit if len(old.weights) == 1 else creator.C02CFit2
+    k = len(old.weights)
+    state = rng.choice(["valid_list", "valid_list", "violating", "violating", "valid_tuple", "valid_none", "unevaluated"])
+    if state == "violating":
+        f = cls(constraint_violation=[True] + [rng.random() < 0.5 for _ in range(rng.randint(0, 2))])
+    elif state == "unevaluated":
+        f = cls()
+    else:
+        cv = {"valid_list": [False, False], "valid_tuple": (False,), "valid_none": None}[state]
+        f = cls(constraint_violation=list(cv) if isinstance(cv, list) else cv)
+        f.values = tuple(float(rng.randint(0, 3)) for _ in range(k))
+    ind.fitness = f
+    return state
 
 
 _IMMUTABLE = (int, float, complex, str, bytes, bool, type(None), type, types.FunctionType,
@@ -352,10 +378,22 @@ def _oracle(run, which, case, pop, before, pop_ids_before, outcome, varied_ids, 
             bad("offspring %d of %s went through mate/mutate and still has a valid fitness" % (idx, which),
                 values=tuple(o.fitness.values))
         if o.fitness.valid:
-            g, v = geno_snapshot(o), tuple(o.fitness.values)
+            g, v, fa = geno_snapshot(o), tuple(o.fitness.values), fitness_attrs(o.fitness)
             if not any(same_geno(s["geno"], g) and s["valid"] and s["values"] == v for s in snaps):
                 bad("offspring %d of %s has a valid fitness but is not a copy of an input individual" % (idx, which),
                     genotype=g[:2], values=v)
+            elif not any(same_geno(s["geno"], g) and s["valid"] and s["values"] == v and
+                         (s["fitness_attrs"] == fa or s["fitness_class"] != type(o.fitness).__name__) for s in snaps):
+                bad("offspring %d of %s has a valid fitness whose other attributes (constraint_violation) are not "
+                    "those of the input individual it copies" % (idx, which), fitness_attrs=fa)
+        elif id(o) not in varied_ids:
+            # an offspring no operator saw keeps the whole fitness of an input, also when that fitness is not valid
+            # (a violating ConstrainedFitness: no values, constraint_violation list)
+            g, fa = geno_snapshot(o), fitness_attrs(o.fitness)
+            if not any(same_geno(s["geno"], g) and not s["valid"] and
+                       (s["fitness_attrs"] == fa or s["fitness_class"] != type(o.fitness).__name__) for s in snaps):
+                bad("offspring %d of %s was not varied but does not carry the (unevaluated/violating) fitness of the "
+                    "input individual it copies" % (idx, which), genotype=g[:2], fitness_attrs=fa)
 
 
 def same_geno(a, b):
@@ -393,20 +431,37 @@ def get_classes():
         creator.create("C02ArrD", array.array, typecode="d", fitness=creator.C02Fit)
         creator.create("C02Np", numpy.ndarray, fitness=creator.C02Fit2)
         creator.create("C02Tree", gp.PrimitiveTree, fitness=creator.C02Fit)
+        creator.create("C02CFit", base.ConstrainedFitness, weights=(-1.0,))
+        creator.create("C02CFit2", base.ConstrainedFitness, weights=(1.0, -1.0))
     return creator
 
 
 # --------------------------------------------------------------------------- instrumented cases
-def instrumented_case(run, which, objs, fits, pop_idx, lam, cxpb, mutpb, mks, uks, proxy, terms, cases):
+def random_cvs(rng, fits):
+    """constraint_violation per fitness object (None entry list = plain base.Fitness population)."""
+    out = []
+    for fv in fits:
+        if fv is None:
+            out.append(rng.choice([None, [True], [True, False], [False, True, True]]))     # unevaluated / violating
+        else:
+            out.append(rng.choice([None, [False, False], [False], (False,)]))
+    return out
+
+
+def instrumented_case(run, which, objs, fits, pop_idx, lam, cxpb, mutpb, mks, uks, proxy, terms, cases, cvs="auto"):
     """One instrumented case; an exception while driving or observing it never aborts the run: it is recorded
-    as a disagreement for this case (the oracle has normally already judged what DEAP returned)."""
+    as a disagreement for this case (the oracle has normally already judged what DEAP returned).
+    cvs: None = individuals carry base.Fitness; a list = they carry base.ConstrainedFitness with these
+    constraint_violation values; "auto" = decided here (about 40% constrained)."""
     n0 = len(terms)
+    if cvs == "auto":
+        cvs = random_cvs(run.rng, fits) if run.rng.random() < 0.4 else None
     try:
-        return _instrumented_case(run, which, objs, fits, pop_idx, lam, cxpb, mutpb, mks, uks, proxy, terms, cases)
+        return _instrumented_case(run, which, objs, fits, pop_idx, lam, cxpb, mutpb, mks, uks, proxy, terms, cases, cvs)
     except Exception:       # noqa
         import traceback
         case = {"kind": which, "objs": objs, "fits": fits, "pop": pop_idx, "lambda": lam, "cxpb": cxpb, "mutpb": mutpb,
-                "draws": list(proxy.log), "mate_kinds": mks, "mutate_kinds": uks,
+                "draws": list(proxy.log), "mate_kinds": mks, "mutate_kinds": uks, "constraint_violation": cvs,
                 "harness_exception": traceback.format_exc()[-1500:]}
         del terms[n0:]
         del cases[n0:]
@@ -416,14 +471,18 @@ def instrumented_case(run, which, objs, fits, pop_idx, lam, cxpb, mutpb, mks, uk
         return ("raise", "HarnessException")
 
 
-def _instrumented_case(run, which, objs, fits, pop_idx, lam, cxpb, mutpb, mks, uks, proxy, terms, cases):
+def _instrumented_case(run, which, objs, fits, pop_idx, lam, cxpb, mutpb, mks, uks, proxy, terms, cases, cvs=None):
     """objs: [(genotype, fitness object index)], fits: [None | [v]]; pop_idx: positions into objs."""
     from deap import base
     creator = get_classes()
     canon = Canon()
     fobjs = []
-    for fv in fits:
-        f = creator.C02Fit()
+    for k, fv in enumerate(fits):
+        if cvs is None:
+            f = creator.C02Fit()
+        else:
+            cv = cvs[k]
+            f = creator.C02CFit(constraint_violation=list(cv) if isinstance(cv, list) else cv)
         if fv is not None:
             f.values = tuple(float(v) for v in fv)
         fobjs.append(f)
@@ -479,7 +538,8 @@ def _instrumented_case(run, which, objs, fits, pop_idx, lam, cxpb, mutpb, mks, u
     tb.register("mutate", mutate)
     outcome = call_variation(which, pop, tb, lam, cxpb, mutpb, proxy)
     case = {"kind": which, "objs": objs, "fits": fits, "pop": pop_idx, "lambda": lam, "cxpb": cxpb, "mutpb": mutpb,
-            "draws": list(proxy.log), "mate_kinds": mks, "mutate_kinds": uks, "outcome": None}
+            "draws": list(proxy.log), "mate_kinds": mks, "mutate_kinds": uks, "constraint_violation": cvs,
+            "outcome": None}
     if outcome[0] == "ok":
         res_ids = [canon.uid(o) for o in outcome[1]]
         ores = "(OList %s)" % cnatl(res_ids)
@@ -491,12 +551,22 @@ def _instrumented_case(run, which, objs, fits, pop_idx, lam, cxpb, mutpb, mks, u
     oracle(run, which, case, pop, before, pop_ids, outcome, varied, lam, cxpb, mutpb, proxy.log,
            mate_same_twice=state.get("same_twice", False))
     # final content of every object that existed (something that is not an individual cannot match the model)
-    snap = []
+    # last component: through which fitness object (first in canonical order) the mutable attribute values of this
+    # object's fitness (constraint_violation, ...) are reachable -- the model predicts "its own"
+    snap, attr_owner = [], {}
     for o in canon.individuals():
         try:
-            snap.append("(%s, %s, %s)" % (czl([int(x) for x in o]), cnat(canon.fid(o.fitness)), copt(fitvals(o), czl)))
+            fid = canon.fid(o.fitness)
+            owner = fid
+            for v in mutable_ids(o.fitness).values():
+                if v is o.fitness:
+                    continue
+                first = attr_owner.setdefault(id(v), fid)
+                if first != fid:
+                    owner = first
+            snap.append("(%s, %s, %s, %s)" % (czl([int(x) for x in o]), cnat(fid), copt(fitvals(o), czl), cnat(owner)))
         except Exception:       # noqa
-            snap.append("([(-1)%Z], 0%nat, None)")
+            snap.append("([(-1)%Z], 0%nat, None, 0%nat)")
     head = "%s %s %s" % (clist(["(%s, %s)" % (czl(g), cnat(r)) for g, r in objs]),
                          clist([copt(f, czl) for f in fits]), cnatl(pop_idx))
     tail = "%s %s %s %s %s %s" % (clist([cdraw(d) for d in proxy.log]), clist([cmk(k) for k in mks]),
@@ -753,7 +823,8 @@ def real_operator_runs(run):
          lim2(partial(gp.mutUniform, expr=expr_big, pset=pset))),
     ]
     dup_shapes = [[0, 1, 0, 2, 1, 0], [0, 0], [0, 1, 1, 0], [0, 0, 0], [1, 0, 1], [2, 2, 1, 0, 2]]
-    stats = {"runs": 0, "with_repeated_members": 0, "mate_returned_same_object_twice": 0, "new_object_returned": 0}
+    stats = {"runs": 0, "with_repeated_members": 0, "mate_returned_same_object_twice": 0, "new_object_returned": 0,
+             "constrained_individuals": 0}
 
     def one_run(name, mkind_, mate, mutate, it):
         limited = "staticLimit" in name
@@ -765,10 +836,14 @@ def real_operator_runs(run):
             shape = dup_shapes[it % len(dup_shapes)]        # one object in several slots of the population
             n = len(shape)
         distinct = []
+        fitness_mode = ["plain", "constrained", "plain", "mixed", "plain", "constrained"][(it // 2) % 6]
         for _ in range(max(n, 1)):
             ind, fv = mkind_(L)
             if rng.random() < (0.9 if shape else 0.6):
                 ind.fitness.values = fv()
+            if fitness_mode == "constrained" or (fitness_mode == "mixed" and rng.random() < 0.5):
+                constrain(ind, rng)         # base.ConstrainedFitness: evaluated / violating (list) / unevaluated
+                stats["constrained_individuals"] += 1
             distinct.append(ind)
         pop = [distinct[i] for i in range(n)]
         if shape is not None:
@@ -821,7 +896,8 @@ def real_operator_runs(run):
         case = {"kind": "real-operators", "which": which, "representation": name, "n": n, "lambda": lam,
                 "cxpb": cxpb, "mutpb": mutpb, "seed": seed,
                 "population_slots": [slot_of[id(p)] for p in pop],
-                "population": [before[id(p)]["geno"][:2] + (before[id(p)]["values"],) for p in pop],
+                "population": [before[id(p)]["geno"][:2] + (before[id(p)]["values"], before[id(p)]["fitness_class"],
+                                                            before[id(p)]["fitness_attrs"]) for p in pop],
                 "outcome": outcome[1] if outcome[0] == "raise" else len(outcome[1])}
         oracle(run, which, case, pop, before, pop_ids, outcome, varied, lam, cxpb, mutpb, proxy.log,
                mate_same_twice=flags["same_twice"])
@@ -846,6 +922,62 @@ def real_operator_runs(run):
             count += 1
     run.extra_cov["real_operator_stats"] = stats
     return count
+
+
+def corpus_runs(run):
+    """corpus/C02_*.json: minimised inputs of past misses, replayed first on every run (list individuals, the library's
+    cxTwoPoint/mutFlipBit, fitness objects as described; the oracle judges the outcome)."""
+    import glob
+    import json
+    import os
+    from functools import partial
+    from deap import base, tools
+    creator = get_classes()
+    here = os.path.dirname(os.path.dirname(os.path.abspath(__file__)))
+    n = 0
+    for path in sorted(glob.glob(os.path.join(here, "corpus", "C02_*.json"))):
+        try:
+            spec = json.load(open(path))
+            distinct = []
+            for d in spec["individuals"]:
+                ind = creator.C02List(d["genotype"])
+                if d.get("fitness_class") == "ConstrainedFitness":
+                    cv = d.get("constraint_violation")
+                    ind.fitness = creator.C02CFit2(constraint_violation=list(cv) if isinstance(cv, list) else cv)
+                if d.get("values") is not None:
+                    ind.fitness.values = tuple(float(v) for v in d["values"])
+                distinct.append(ind)
+            pop = [distinct[i] for i in spec["population_slots"]]
+            tb = base.Toolbox()
+            varied, keep = set(), []
+
+            def w_mate(a, b):
+                r = tools.cxTwoPoint(a, b)
+                keep.extend([a, b, r[0], r[1]]); varied.update([id(a), id(b), id(r[0]), id(r[1])])
+                return r
+
+            def w_mut(a):
+                r = tools.mutFlipBit(a, indpb=0.5)
+                keep.extend([a, r[0]]); varied.update([id(a), id(r[0])])
+                return r
+
+            tb.register("mate", w_mate)
+            tb.register("mutate", w_mut)
+            _pyrandom.seed(spec.get("seed", 0))
+            before = {id(p): deep_snapshot(p) for p in pop}
+            proxy = RandomProxy(spec.get("seed", 0))
+            outcome = call_variation(spec["which"], pop, tb, spec.get("lambda", 0), spec["cxpb"], spec["mutpb"], proxy)
+            case = {"kind": "corpus", "file": os.path.basename(path), "what": spec.get("what"), "input": spec,
+                    "outcome": outcome[1] if outcome[0] == "raise" else len(outcome[1])}
+            oracle(run, spec["which"], case, pop, before, [id(p) for p in pop], outcome, varied, spec.get("lambda", 0),
+                   spec["cxpb"], spec["mutpb"], proxy.log)
+            run.note_case(case, True)
+            n += 1
+        except Exception:       # noqa
+            import traceback
+            run.disagreements.append({"group": "corpus", "index": None, "case": {"file": path},
+                                      "what": "corpus case could not be replayed: " + traceback.format_exc()[-300:]})
+    run.notes.append("corpus cases replayed first: %d" % n)
 
 
 def build_with_retry(run):
@@ -913,6 +1045,7 @@ def main(run):
                         "varOr: cxpb + mutpb <= 1; population of at least 2 when a crossover draw occurs and at least 1 "
                         "otherwise (the real code raises ValueError / IndexError there, proved as guards)"]
     build_with_retry(run)
+    corpus_runs(run)
     terms, cases = [], []
     instrumented_cases(run, terms, cases)
     correspond_with_retry(run, "variation", terms, cases)
